@@ -277,6 +277,9 @@ def main(rec):
                 # a function with std::vector arguments or a std::string result by value has no plain C entry point
                 # (only the Fortran-facing bufferify one, see vf/drivers/c.py): without Fortran nothing is emitted in C
                 fl.setdefault("lang_ok", {})["c"] = False
+            if (ent.get("options") or {}).get("C_extern_C"):
+                # a function that already has C linkage and needs no conversion is its own C API: no wrapper is written
+                fl.setdefault("lang_ok", {})["c"] = False
             if first:
                 decl_flags[stem] = fl
             elif {k: fl[k] for k in ("c", "fortran", "python", "lua")} != {k: decl_flags[stem][k] for k in ("c", "fortran", "python", "lua")}:
